@@ -251,6 +251,7 @@ func (h *harness) one(cs *Case, ch chooser, dense bool, vcase func(tmpl, want st
 	}
 	h.cnt["escaped_runes"] += int64(p.escaped)
 	h.cnt["calls_printed"] += int64(p.calls)
+	h.cnt["adjacent_piece_arguments"] += int64(p.cats)
 	h.cnt["statements_printed"] += int64(p.stmts)
 	h.max("max_depth", int64(p.maxDepth))
 	h.max("max_template_bytes", int64(len(tmpl)))
